@@ -50,5 +50,8 @@ Init == \/ (kind = "split" /\ input \in SplitInputs)
 Next == UNCHANGED <<kind, input>>
 Spec == Init /\ [][Next]_<<kind, input>>
 DesignOK ==
-  IF kind = "split" THEN SplitOK(input[1], input[2]) ELSE CachedTransparent(input)
+  IF kind = "split"
+    THEN SplitOK(input[1], input[2]) /\ SplitFinalOK(input[1], input[2])
+         /\ SplitLinesOK(input[1], input[2])
+    ELSE CachedTransparent(input)
 =============================================================================
